@@ -37,9 +37,12 @@ def run(ctx):
     p, q = alg.psym("phiA"), alg.psym("phiB")
     fab = {"olivine": "olivine_A", "enstatite": "enstatite_AB"}
     recs = {}
-    for assemblage, fr in ((("olivine",), (p,)), (("enstatite",), (p,)), (("olivine", "enstatite"), (p, q)), (("enstatite", "olivine"), (q, p))):
+    from ..alg import ZERO as _Z, ONE as _O
+    # (the last two: a phase that is listed but occupies no volume evolves like a single-phase mineral with zero mobility - it still rotates)
+    for assemblage, fr in ((("olivine",), (p,)), (("enstatite",), (p,)), (("olivine", "enstatite"), (p, q)), (("enstatite", "olivine"), (q, p)),
+                           (("olivine", "enstatite"), (_O, _Z)), (("olivine", "enstatite"), (_Z, _O))):
         for phase in assemblage:
-            tag = f"assemblage={assemblage}:mineral={phase}"
+            tag = f"assemblage={assemblage}:mineral={phase}" + (f":fractions={tuple(str(x) for x in fr)}" if any(x.is_const() for x in fr) else "")
             R = driver.run_update(ctx, phase=phase, fabric=fab[phase], N=2, assemblage=assemblage, phase_fractions=fr)
             if R.exc is not None or not R.deriv_calls:
                 ctx.ob("C08.own-phase", tag, False, f"update raised {R.exc!r} / no derivatives call", mloc)
@@ -69,7 +72,8 @@ def run(ctx):
                             break
                 ctx.ob("C08.no-foreign", f"{tag}:call{k}:own fraction enters only as the volume factor", not leak,
                        f"the phase fraction also reaches the argument(s) {leak}", mloc)
-            recs[(assemblage, phase)] = R.deriv_calls[0][1]
+            if not any(x.is_const() for x in fr):          # (the boundary cases above are not part of the permutation comparison)
+                recs[(assemblage, phase)] = R.deriv_calls[0][1]
     for phase in ("olivine", "enstatite"):
         a, b = recs.get((("olivine", "enstatite"), phase)), recs.get((("enstatite", "olivine"), phase))
         if a is None or b is None:
